@@ -1454,9 +1454,10 @@ class Stage:
         ret._method.t0 = None
         ret._var_original = self._var_original
 
-        ret._meta = self._meta
-        ret._scale = self._scale
-        ret._catalog = self._catalog
+        # Own copies: symbols declared later on the clone must not become known to the template or to sibling clones
+        ret._meta = copy(self._meta)
+        ret._scale = copy(self._scale)
+        ret._catalog = copy(self._catalog)
 
         ret._var_is_transcribed = False
         ret._T_scale = self._T_scale
